@@ -1,4 +1,5 @@
 use vstd::prelude::*;
+use vstd::std_specs::iter::IteratorSpec;
 verus! {
 pub assume_specification<T: Default>[ core::mem::take::<T> ](dest: &mut T) -> (r: T)
     ensures r == *old(dest);
@@ -8,7 +9,9 @@ pub enum Event { Front(u8), Meta(u8), Start(BlockKind), End(BlockKind), Text(u8)
 pub enum Item { Text(u8), Ingr(Box<u8>) }
 pub enum Block { Meta(u8), Step { items: Vec<Item> }, TextBlock(Vec<u8>) }
 
-pub fn build_ast(events: impl Iterator<Item = Event>) -> Vec<Block> {
+pub fn build_ast(events: impl Iterator<Item = Event>) -> Vec<Block>
+    requires events.obeys_prophetic_iter_laws(), events.decrease().is_some(),
+{
     let mut blocks = Vec::new();
     let mut items = Vec::new();
     for event in events {
